@@ -36,8 +36,14 @@ def gen_cases(ctx):
         base["n"] = int(rng.choice([2, 10, 30, 60]))
         base["N"] = int(rng.choice([1, 4, 10, 40], p=[0.3, 0.4, 0.25, 0.05]))
         base["F0"] = str(rng.choice(["I", "random"]))
-        base["t0"] = float(rng.choice([0.0, 0.5]))
-        ks = list(rng.choice(KS, size=ctx.scale(3, 5), replace=False)) + [float(10.0 ** rng.uniform(-16, 3))]
+        base["t0"] = float(rng.choice([0.0, 0.5, 1e4]))
+        if rng.random() < 0.3:
+            # strain paths with a large dynamic range of rates, run at geological speed, reach absolute
+            # strain rates far below 1e-15 1/s -- exactly where an absolute constant in the scaling would bite
+            base["L"]["mode"] = "multirate"
+            base["L"]["rho"] = float(rng.choice([1e-2, 1e-3, 1e-4], p=[0.2, 0.4, 0.4]))
+        ks = ([float(rng.choice([1e-16, 1e-15]))] + list(rng.choice(KS[2:], size=ctx.scale(2, 4), replace=False))
+              + [float(10.0 ** rng.uniform(-16, 3))])
         for k in ks:
             c = copy.deepcopy(base)
             c["kind"] = "rescale"
@@ -65,7 +71,8 @@ def check_case(ctx, case):
     m1, m2 = H1.mineral(), H1.mineral()
     pr = drive.PairRun(ctx, pydrex, mon, case, H1, "rescale")
     ok = pr.compare(m1, m2, {}, {"Lfun": H2.Lfun, "posfun": H2.posfun, "ts": H2.ts},
-                    mapA=lambda A: A, mapF=lambda F: F, tol_of=tol_of, exact=True)
+                    mapA=lambda A: A, mapF=lambda F: F, tol_of=tol_of, exact=True,
+                    fresh=lambda: (H1.mineral(), H1.mineral()))
     moved = float(np.abs(m1.orientations[-1] - m1.orientations[0]).max()) if len(m1.orientations) > 1 else 0.0
     ctx.case(case, nontrivial=bool(ok and case["k"] != 1.0 and moved > 1e-6))
     ctx.cls("k<1e-12" if case["k"] < 1e-12 else "k<1e-3" if case["k"] < 1e-3 else "k<10" if case["k"] < 10 else "k>=10")
